@@ -488,17 +488,18 @@ Lemma error_response_tree_wf id e : id_ok id = true -> str_ok (e_message e) = tr
   json_wf (e_data e) = true -> json_wf (error_response_tree id e) = true.
 Proof.
   intros Hi Hm Hd. unfold error_response_tree. apply obj_wf_app.
-  - cbn [forallb fst snd]. unfold error_tree.
-    rewrite (obj_wf_app _ _ (eq_refl : forallb _ [(WLit.k_code, JInt (e_code e))] = true));
-      [reflexivity|cbn [forallb fst snd json_wf]; rewrite Hm; reflexivity|].
-    apply opt_field_wf; [reflexivity|exact Hd].
+  - assert (He : json_wf (error_tree e) = true).
+    { unfold error_tree. apply obj_wf_app; [|apply opt_field_wf; [reflexivity|exact Hd]].
+      cbn [forallb fst snd json_wf]. rewrite Hm. reflexivity. }
+    cbn [forallb fst snd]. rewrite He. reflexivity.
   - apply opt_field_wf; [reflexivity|apply id_ok_wf, Hi].
 Qed.
 
 Lemma sent_trees_wf s : send_guard s = true -> Forall (fun j => json_wf j = true) (sent_trees s).
 Proof.
   destruct s as [id [r|] | id e | m [p|] | id m [p|] | d]; cbn [send_guard sent_trees payload_wf]; intros G;
-    try discriminate; repeat (apply andb_true_iff in G; destruct G as [G ?]);
+    try discriminate;
+    repeat match goal with H : _ && _ = true |- _ => apply andb_true_iff in H; destruct H end;
     repeat constructor.
   - unfold response_tree. cbn [json_wf forallb fst snd]. rewrite (id_ok_wf id) by assumption.
     replace (json_wf r) with true by (symmetry; assumption). reflexivity.
